@@ -155,8 +155,22 @@ func (i *interpreter) wake(t *gthread) {
 // spawn starts a new target goroutine running fn(args); the caller keeps the baton.
 func (i *interpreter) spawn(fn value, args []value, pos ssa.Instruction) {
 	i.curThread()
-	if len(i.threads) >= 16 {
-		unsup("more than 16 goroutines")
+	// bound: 16 goroutines in total while the race detector is on (vector-clock width), else 64 live ones (finished
+	// goroutines - e.g. the producer goroutine of every closed iavl iterator - do not count)
+	if i.raceID != "" {
+		if len(i.threads) >= 16 {
+			unsup("more than 16 goroutines")
+		}
+	} else {
+		live := 0
+		for _, t := range i.threads {
+			if t.state != tDone {
+				live++
+			}
+		}
+		if live >= 64 || len(i.threads) >= 100000 {
+			unsup("more than 64 live goroutines")
+		}
 	}
 	t := &gthread{id: len(i.threads), resume: make(chan struct{}, 1), exited: make(chan struct{})}
 	i.threads = append(i.threads, t)
